@@ -56,11 +56,13 @@ fn problem(k: usize, backward: bool) -> (Prob, f64) {
             p.jac = Some(Arc::new(move |_t, _y| vec![s * RADAU_U1]));
             (p, 1.5)
         }
+        // an interval shorter than min_step (1e-3): a lower bound on the step that cannot bind
+        9 => (mk("decay on an interval of 5e-4", 1, vec![1.0], Arc::new(|_t, y, d| d[0] = -y[0])), 5e-4),
         5 => (mk("rhs discontinuous in t", 1, vec![1.0], Arc::new(|t, y, d| d[0] = -y[0] + if t > 0.7 { 5.0 } else { 0.0 })), 2.0),
         _ => (mk("rhs discontinuous in y", 1, vec![0.0], Arc::new(|_t, y, d| d[0] = if y[0] > 0.5 { -2.0 } else { 1.0 })), 1.0),
     }
 }
-const NPROB: usize = 9;
+const NPROB: usize = 10;
 /// real eigenvalue of the inverse Radau IIA matrix as written in radau.rs (the resonance scene is
 /// only a scene: if the constant differed the run would simply not meet a singular matrix)
 const RADAU_U1: f64 = 3.637_834_252_744_496;
